@@ -244,10 +244,11 @@ spec fn mc_fv_no<P: Fn(usize) -> bool>(f: P, x: int) -> bool { 0 <= x <= usize::
 type McMap = Map<usize, BTreeSet<usize>>;
 
 /// the map under construction is inside the induced subdigraph: its keys are accepted vertices of g, its arcs are arcs
-/// of g whose head is already a key
+/// of g whose head was accepted.  ("Every head is a key" is NOT part of the loop state: it is derived once every vertex of g
+/// has been visited, so the proof does not depend on WHEN an accepted head is admitted as a key.)
 spec fn mc_fv_sub<P: Fn(usize) -> bool>(g: AdjacencyMap, p: P, m: McMap) -> bool {
     &&& forall|a: usize| #[trigger] m.contains_key(a) ==> g.arcs@.contains_key(a) && mc_fv_says(p, a, true)
-    &&& forall|a: usize, b: usize| m.contains_key(a) && #[trigger] m[a]@.contains(b) ==> g.arcs@[a]@.contains(b) && m.contains_key(b)
+    &&& forall|a: usize, b: usize| m.contains_key(a) && #[trigger] m[a]@.contains(b) ==> g.arcs@[a]@.contains(b) && mc_fv_says(p, b, true)
 }
 
 /// vertex a of g has been treated: it is a key unless it was rejected, and each of its arcs is there unless an endpoint was rejected
@@ -280,9 +281,10 @@ spec fn mc_added(m0: McMap, m1: McMap, k: usize, x: usize) -> bool {
     &&& !m0.contains_key(k) ==> m1[k]@ == Set::<usize>::empty().insert(x)
 }
 
-/// the two statements of the inner loop body: the arc k -> x is added, then x is admitted
+/// the statements of the inner loop body: the arc k -> x is added, and x is admitted either at once (second statement) or
+/// not yet (it will be when the outer loop reaches it)
 spec fn mc_arc_added(m0: McMap, m2: McMap, k: usize, x: usize) -> bool {
-    exists|m1: McMap| mc_added(m0, m1, k, x) && #[trigger] mc_touched(m1, m2, x)
+    mc_added(m0, m2, k, x) || exists|m1: McMap| mc_added(m0, m1, k, x) && #[trigger] mc_touched(m1, m2, x)
 }
 
 proof fn lemma_mc_grows_done<P: Fn(usize) -> bool>(g: AdjacencyMap, p: P, m0: McMap, m1: McMap, ks: Seq<usize>, n: int)
@@ -310,51 +312,46 @@ proof fn lemma_mc_fv_touch<P: Fn(usize) -> bool>(g: AdjacencyMap, p: P, m0: McMa
         mc_grows(m0, m1),
         m1.contains_key(u),
 {
-    assert forall|a: usize, b: usize| m1.contains_key(a) && #[trigger] m1[a]@.contains(b) implies g.arcs@[a]@.contains(b) && m1.contains_key(b) by {
+    assert forall|a: usize, b: usize| m1.contains_key(a) && #[trigger] m1[a]@.contains(b) implies g.arcs@[a]@.contains(b) && mc_fv_says(p, b, true) by {
         if a == u && !m0.contains_key(u) { assert(false); }
         assert(m0.contains_key(a) && m0[a]@.contains(b));
     }
 }
 
-/// an arc u -> v of g between accepted vertices is added (u already admitted), then v is admitted
-proof fn lemma_mc_fv_add<P: Fn(usize) -> bool>(g: AdjacencyMap, p: P, m0: McMap, m1: McMap, m2: McMap, u: usize, v: usize)
+/// an arc u -> v of g with accepted head is added to the row of the admitted vertex u
+proof fn lemma_mc_fv_add<P: Fn(usize) -> bool>(g: AdjacencyMap, p: P, m0: McMap, m1: McMap, u: usize, v: usize)
     requires
-        g.wf(),
         mc_fv_sub(g, p, m0),
         m0.contains_key(u),
-        g.arcs@.contains_key(u),
         g.arcs@[u]@.contains(v),
         mc_fv_says(p, v, true),
         mc_added(m0, m1, u, v),
-        mc_touched(m1, m2, v),
     ensures
-        mc_fv_sub(g, p, m2),
-        mc_grows(m0, m2),
-        m2.contains_key(u),
-        m2[u]@.contains(v),
+        mc_fv_sub(g, p, m1),
+        mc_grows(m0, m1),
+        m1.contains_key(u),
+        m1[u]@.contains(v),
 {
-    assert(g.arcs@.contains_key(v) && v != u);
-    assert(m1[u]@.contains(v));
-    assert(m2[u] == m1[u]);
+    assert forall|a: usize| #[trigger] m0.contains_key(a) implies m1.contains_key(a) && m0[a]@.subset_of(m1[a]@) by {
+        if a != u { assert(m1[a] == m0[a]); }
+    }
+    assert forall|a: usize| #[trigger] m1.contains_key(a) implies g.arcs@.contains_key(a) && mc_fv_says(p, a, true) by {
+        assert(m0.contains_key(a));
+    }
+    assert forall|a: usize, b: usize| m1.contains_key(a) && #[trigger] m1[a]@.contains(b) implies g.arcs@[a]@.contains(b) && mc_fv_says(p, b, true) by {
+        if a == u { if b != v { assert(m0[u]@.contains(b)); } }
+        else { assert(m1[a] == m0[a] && m0.contains_key(a)); assert(m0[a]@.contains(b)); }
+    }
+}
+
+/// growing is transitive
+proof fn lemma_mc_grows_trans(m0: McMap, m1: McMap, m2: McMap)
+    requires mc_grows(m0, m1), mc_grows(m1, m2),
+    ensures mc_grows(m0, m2),
+{
     assert forall|a: usize| #[trigger] m0.contains_key(a) implies m2.contains_key(a) && m0[a]@.subset_of(m2[a]@) by {
-        if a == u { assert(m0[u]@.subset_of(m1[u]@)); }
-        else if a == v { assert(m1.contains_key(v) && m1[v] == m0[v] && m2[v] == m1[v]); }
-        else { assert(m2[a] == m0[a]); }
-    }
-    assert forall|a: usize| #[trigger] m2.contains_key(a) implies g.arcs@.contains_key(a) && mc_fv_says(p, a, true) by {
-        if a != v { assert(m1.contains_key(a)); if a != u { assert(m0.contains_key(a)); } }
-    }
-    assert forall|a: usize, b: usize| m2.contains_key(a) && #[trigger] m2[a]@.contains(b) implies g.arcs@[a]@.contains(b) && m2.contains_key(b) by {
-        if a == u {
-            if b != v { assert(m0[u]@.contains(b)); assert(m0.contains_key(b)); }
-        } else if a == v {
-            if m1.contains_key(v) { assert(m2[v] == m1[v] && m1[v] == m0[v] && m0.contains_key(v)); assert(m0[v]@.contains(b)); assert(m0.contains_key(b)); }
-            else { assert(false); }
-        } else {
-            assert(m2[a] == m0[a] && m0.contains_key(a));
-            assert(m0[a]@.contains(b));
-            assert(m0.contains_key(b));
-        }
+        assert(m1.contains_key(a));
+        assert(m0[a]@.subset_of(m1[a]@) && m1[a]@.subset_of(m2[a]@));
     }
 }
 
@@ -436,9 +433,17 @@ proof fn lemma_mc_fv_inner_step<P: Fn(usize) -> bool>(g: AdjacencyMap, p: P, m0:
         && ((mc_fv_says(p, v, false) && m2 == m0) || (mc_fv_says(p, v, true) && mc_arc_added(m0, m2, u, v))) {
         assert(ks.to_set().contains(ks[i]));
         assert(g.has(u as int, vs[j] as int));
-        if m2 != m0 {
-            let m1 = choose|m1: McMap| mc_added(m0, m1, u, v) && #[trigger] mc_touched(m1, m2, v);
-            lemma_mc_fv_add(g, p, m0, m1, m2, u, v);
+        if mc_fv_says(p, v, true) && mc_arc_added(m0, m2, u, v) {
+            if mc_added(m0, m2, u, v) {
+                lemma_mc_fv_add(g, p, m0, m2, u, v);
+            } else {
+                let m1 = choose|m1: McMap| mc_added(m0, m1, u, v) && #[trigger] mc_touched(m1, m2, v);
+                lemma_mc_fv_add(g, p, m0, m1, u, v);
+                assert(g.arcs@.contains_key(v));
+                lemma_mc_fv_touch(g, p, m1, m2, v);
+                lemma_mc_grows_trans(m0, m1, m2);
+                assert(m1[u]@.subset_of(m2[u]@));
+            }
             lemma_mc_grows_done(g, p, m0, m2, ks, i);
             assert forall|jj: int| 0 <= jj < j + 1 implies m2[u]@.contains(#[trigger] vs[jj]) || mc_fv_says(p, vs[jj], false) by {
                 if jj < j { assert(m0[u]@.subset_of(m2[u]@)); }
@@ -497,8 +502,12 @@ proof fn lemma_mc_fv_result<P: Fn(usize) -> bool>(g: AdjacencyMap, p: P, r: Adja
             let k = choose|k: int| 0 <= k < ks.len() && ks[k] == a;
             assert(mc_fv_done(g, p, m, ks[k]));
         }
+        // every head is a key: it is an accepted vertex of g, every vertex of g has been treated, and the predicate is a function
         assert forall|u: usize, x: usize| m.contains_key(u) && #[trigger] m[u]@.contains(x) implies m.contains_key(x) && x != u by {
             assert(g.arcs@[u]@.contains(x));
+            assert(g.arcs@.contains_key(x));
+            assert(mc_fv_done(g, p, m, x));
+            assert(mc_fv_says(p, x, true));
         }
         assert forall|x: int| #![trigger r.verts().contains(x)] g.verts().contains(x) && !r.verts().contains(x) implies mc_fv_no(p, x) by {
             assert(mc_fv_done(g, p, m, x as usize));
@@ -569,6 +578,200 @@ impl AdjacencyMap {
             // the loop's ghost iterator is out of scope here: state the conclusion for every vertex listing
             assert forall|ks: Seq<usize>| #![trigger mc_is_key_seq(self.arcs@.dom(), ks)] mc_fv_result_ok(*self, predicate, AdjacencyMap { arcs }, ks)
             by { lemma_mc_fv_result(*self, predicate, AdjacencyMap { arcs }, ks); }
+        }
+    @*/
+}
+
+// ---- C16: conversion from another representation, `impl From<$type> for AdjacencyMap` (macro `impl_from_arcs_order`, instances
+// AdjacencyList / AdjacencyMatrix / EdgeList).  The source is the opaque `Dg` (prelude/dg.rs): the converter only uses `order()`
+// and `arcs()`, whose trait contracts `Dg` carries; `Dg` is NOT assumed well-formed.
+// Unlike the converters into the fixed-order representations (units/inc/conversions.inc.rs), this one checks the HEAD only
+// (`u != v`, `v < order`): `AdjacencyMap::add_arc` admits an unknown tail as a new vertex instead of panicking.  So an arc whose
+// TAIL is outside 0..order does not panic but enlarges V.  The contract says exactly that, without a precondition: the arc
+// relation is always preserved, V is 0..order plus the tails, and if all tails are in 0..order (a structural fact of the three
+// instance types, whose tails are row indices / checked by their add_arc) the result has the same order and V = 0..order.
+
+/// vertex ids are `usize` by type; the opaque source `Dg` states its arc relation over `int`
+spec fn mc_is_id(a: int) -> bool { 0 <= a <= usize::MAX }
+
+/// C16 (normal return): at least one vertex, no self-loop, every head in V; a source violating this makes the conversion panic
+spec fn mc_dg_heads_ok(d: Dg) -> bool {
+    &&& d.ord() > 0
+    &&& forall|u: int, v: int| mc_is_id(u) && mc_is_id(v) && #[trigger] d.has(u, v) ==> 0 <= v < d.ord() && u != v
+}
+
+/// every tail is in V
+spec fn mc_dg_tails_in(d: Dg) -> bool {
+    forall|u: int, v: int| mc_is_id(u) && mc_is_id(v) && #[trigger] d.has(u, v) ==> 0 <= u < d.ord()
+}
+
+/// the source is a valid digraph (same text as `dg_valid` in units/inc/conversions.inc.rs)
+spec fn mc_dg_valid(d: Dg) -> bool {
+    &&& d.ord() > 0
+    &&& forall|u: int, v: int| mc_is_id(u) && mc_is_id(v) && #[trigger] d.has(u, v) ==> 0 <= u < d.ord() && 0 <= v < d.ord() && u != v
+}
+
+/// x is the tail of some arc of the source
+spec fn mc_dg_tail(d: Dg, x: int) -> bool {
+    mc_is_id(x) && exists|b: int| mc_is_id(b) && #[trigger] d.has(x, b)
+}
+
+/// the items of `Dg::arcs()` (trait contract): exactly the arcs of the source
+spec fn mc_arcs_of(d: Dg, s: Seq<(usize, usize)>) -> bool {
+    &&& forall|u: usize, v: usize| d.has(u as int, v as int) ==> s.contains((u, v))
+    &&& forall|i: int| 0 <= i < s.len() ==> d.has((#[trigger] s[i]).0 as int, s[i].1 as int)
+}
+
+/// x is the tail of one of the first n items
+spec fn mc_fd_tail_upto(s: Seq<(usize, usize)>, n: int, x: int) -> bool {
+    exists|i: int| 0 <= i < n && (#[trigger] s[i]).0 == x
+}
+
+/// loop state of from_dg with the first n items of s converted
+spec fn mc_fd_state(h: AdjacencyMap, s: Seq<(usize, usize)>, n: int, order: int) -> bool {
+    &&& h.wf()
+    &&& 0 <= n <= s.len()
+    &&& 0 < order <= usize::MAX
+    &&& forall|i: int| 0 <= i < n ==> (#[trigger] s[i]).1 < order && s[i].0 != s[i].1 && h.has(s[i].0 as int, s[i].1 as int)
+    &&& forall|a: int, b: int| #![trigger h.has(a, b)] h.has(a, b) ==> exists|i: int| 0 <= i < n && s[i] == (a as usize, b as usize)
+    &&& forall|x: int| #[trigger] h.verts().contains(x) == (0 <= x < order || mc_fd_tail_upto(s, n, x))
+}
+
+/// what `add_arc` promises (its contract in units/inc/map_core.inc.rs)
+spec fn mc_arc_added_to(h0: AdjacencyMap, h1: AdjacencyMap, u: usize, v: usize) -> bool {
+    &&& h1.wf()
+    &&& h1.verts() == h0.verts().insert(u as int).insert(v as int)
+    &&& forall|a: int, b: int| #![trigger h1.has(a, b)] h1.has(a, b) == (h0.has(a, b) || (a == u && b == v))
+}
+
+/// the state right after `empty(order)`
+proof fn lemma_mc_fd_init(h: AdjacencyMap, s: Seq<(usize, usize)>, order: int)
+    ensures
+        h.wf() && 0 < order <= usize::MAX && (forall|x: int| #[trigger] h.verts().contains(x) == (0 <= x < order))
+            && (forall|a: int, b: int| #![trigger h.has(a, b)] !h.has(a, b)) ==> mc_fd_state(h, s, 0, order),
+{
+}
+
+/// one round: item n = (u, v) passed both checks and was added
+proof fn lemma_mc_fd_step(h0: AdjacencyMap, h1: AdjacencyMap, s: Seq<(usize, usize)>, n: int, order: int, u: usize, v: usize)
+    ensures
+        mc_fd_state(h0, s, n, order) && n < s.len() && s[n] == (u, v) && u != v && v < order && mc_arc_added_to(h0, h1, u, v)
+            ==> mc_fd_state(h1, s, n + 1, order),
+{
+    if mc_fd_state(h0, s, n, order) && n < s.len() && s[n] == (u, v) && u != v && v < order && mc_arc_added_to(h0, h1, u, v) {
+        assert forall|i: int| 0 <= i < n + 1 implies (#[trigger] s[i]).1 < order && s[i].0 != s[i].1 && h1.has(s[i].0 as int, s[i].1 as int) by {
+            if i < n { assert(h0.has(s[i].0 as int, s[i].1 as int)); }
+        }
+        assert forall|a: int, b: int| #![trigger h1.has(a, b)] h1.has(a, b) implies exists|i: int| 0 <= i < n + 1 && s[i] == (a as usize, b as usize) by {
+            if h0.has(a, b) {
+                let i = choose|i: int| 0 <= i < n && s[i] == (a as usize, b as usize);
+                assert(0 <= i < n + 1 && s[i] == (a as usize, b as usize));
+            } else {
+                assert(s[n] == (a as usize, b as usize));
+            }
+        }
+        assert forall|x: int| #[trigger] h1.verts().contains(x) == (0 <= x < order || mc_fd_tail_upto(s, n + 1, x)) by {
+            if mc_fd_tail_upto(s, n, x) {
+                let i = choose|i: int| 0 <= i < n && (#[trigger] s[i]).0 == x;
+                assert(0 <= i < n + 1 && s[i].0 == x);
+            }
+            if x == u { assert(s[n].0 == x); }
+            if mc_fd_tail_upto(s, n + 1, x) {
+                let i = choose|i: int| 0 <= i < n + 1 && (#[trigger] s[i]).0 == x;
+                if i < n { assert(mc_fd_tail_upto(s, n, x)); }
+            }
+        }
+    }
+}
+
+/// what from_dg promises (C16)
+spec fn mc_fd_result(d: Dg, r: AdjacencyMap) -> bool {
+    &&& r.wf()
+    &&& mc_dg_heads_ok(d)
+    &&& forall|a: int, b: int| #![trigger r.has(a, b)] r.has(a, b) == (mc_is_id(a) && mc_is_id(b) && d.has(a, b))
+    &&& forall|x: int| #[trigger] r.verts().contains(x) == (0 <= x < d.ord() || mc_dg_tail(d, x))
+    &&& mc_dg_tails_in(d) ==> {
+        &&& mc_dg_valid(d)
+        &&& r.ord() == d.ord()
+        &&& forall|x: int| #[trigger] r.verts().contains(x) == (0 <= x < d.ord())
+    }
+}
+
+spec fn mc_fd_result_ok(d: Dg, r: AdjacencyMap, s: Seq<(usize, usize)>, order: int) -> bool {
+    mc_fd_state(r, s, s.len() as int, order) && mc_arcs_of(d, s) && order == d.ord() ==> mc_fd_result(d, r)
+}
+
+/// every item converted: the promised result
+proof fn lemma_mc_fd_result(d: Dg, r: AdjacencyMap, s: Seq<(usize, usize)>, order: int)
+    ensures mc_fd_result_ok(d, r, s, order),
+{
+    if mc_fd_state(r, s, s.len() as int, order) && mc_arcs_of(d, s) && order == d.ord() {
+        broadcast use lemma_map_verts_contains;
+        let n = s.len() as int;
+        assert forall|u: int, v: int| mc_is_id(u) && mc_is_id(v) && #[trigger] d.has(u, v) implies 0 <= v < d.ord() && u != v && r.has(u, v) by {
+            assert(d.has(u as usize as int, v as usize as int));
+            assert(s.contains((u as usize, v as usize)));
+            let i = choose|i: int| 0 <= i < s.len() && s[i] == (u as usize, v as usize);
+            assert(s[i].1 < order && s[i].0 != s[i].1 && r.has(s[i].0 as int, s[i].1 as int));
+        }
+        assert forall|a: int, b: int| #![trigger r.has(a, b)] r.has(a, b) == (mc_is_id(a) && mc_is_id(b) && d.has(a, b)) by {
+            if r.has(a, b) {
+                let i = choose|i: int| 0 <= i < n && s[i] == (a as usize, b as usize);
+                assert(d.has(s[i].0 as int, s[i].1 as int));
+            }
+        }
+        assert forall|x: int| #[trigger] r.verts().contains(x) == (0 <= x < d.ord() || mc_dg_tail(d, x)) by {
+            if mc_fd_tail_upto(s, n, x) {
+                let i = choose|i: int| 0 <= i < n && (#[trigger] s[i]).0 == x;
+                assert(d.has(s[i].0 as int, s[i].1 as int));
+                assert(mc_is_id(s[i].1 as int));
+            }
+            if mc_dg_tail(d, x) {
+                let b = choose|b: int| mc_is_id(b) && #[trigger] d.has(x, b);
+                assert(d.has(x as usize as int, b as usize as int));
+                assert(s.contains((x as usize, b as usize)));
+                let i = choose|i: int| 0 <= i < s.len() && s[i] == (x as usize, b as usize);
+                assert(s[i].0 == x);
+            }
+        }
+        if mc_dg_tails_in(d) {
+            assert forall|x: int| #[trigger] r.verts().contains(x) == (0 <= x < d.ord()) by {
+                if mc_dg_tail(d, x) {
+                    let b = choose|b: int| mc_is_id(b) && #[trigger] d.has(x, b);
+                }
+            }
+            assert(r.verts() =~= Set::<int>::range(0, order));
+            range_set_properties::<int>(0, order);
+            lemma_map_verts_len(r);
+        }
+    }
+}
+
+impl AdjacencyMap {
+    // No precondition.  The hints are calls of unconditional lemmas only.
+    /*@fn impl=AdjacencyMap trait=From name=from rename=from_dg macro=impl_from_arcs_order macroarg=Dg props=C16,C13
+    ensures
+        mc_fd_result(digraph, r),
+    @before `for (u, v)`
+        proof {
+            assert forall|s: Seq<(usize, usize)>| #![trigger mc_arcs_of(digraph, s)] (h.wf() && 0 < order <= usize::MAX && (forall|x: int| #[trigger] h.verts().contains(x) == (0 <= x < order))
+                && (forall|a: int, b: int| #![trigger h.has(a, b)] !h.has(a, b)) ==> mc_fd_state(h, s, 0, order as int)) by { lemma_mc_fd_init(h, s, order as int); }
+        }
+    @loop 1
+    invariant
+        it1.iter.obeys_prophetic_iter_laws(),
+        it1.iter.decrease() is Some,
+        mc_arcs_of(digraph, it1.seq()),
+        order == digraph.ord(),
+        mc_fd_state(h, it1.seq(), it1.index() as int, order as int),
+    @loop_start 1
+        let ghost h0 = h;
+    @loop_end 1
+        proof { lemma_mc_fd_step(h0, h, it1.seq(), it1.index() as int, order as int, u, v); }
+    @fn_end
+        proof {
+            // the loop's ghost iterator is out of scope here: state the conclusion for every item sequence
+            assert forall|s: Seq<(usize, usize)>| #![trigger mc_arcs_of(digraph, s)] mc_fd_result_ok(digraph, h, s, order as int) by { lemma_mc_fd_result(digraph, h, s, order as int); }
         }
     @*/
 }
